@@ -2,8 +2,8 @@
 import ast
 import re
 
-from ..astutil import catches_everything, dotted, handler_names, method_call
-from ..cfg import cfg_of, fact_key, norm, walk_own
+from ..astutil import catches_everything, dotted, effective, handler_names, method_call
+from ..cfg import canon_test, cfg_of, fact_key, norm, walk_own
 from ..consteval import Scope, fold, fold_in
 from ..mutate import B, M
 
@@ -115,7 +115,7 @@ def check(ctx):
             pu = [c for c in walk_own(con.node) if method_call(c, 'parse_uri')]
             if pu:
                 schemes, first_ok, has = claimed_scheme(K.method('parse_uri'))
-                first_stmt = [s for s in con.node.body if not (isinstance(s, ast.Expr) and isinstance(s.value, ast.Constant))][0]
+                first_stmt = effective(con.node.body)[0]
                 first_ok = first_ok and any(c is pu[0] for c in walk_own(first_stmt))
         ok = has and len(schemes) == 1 and first_ok
         claims[cname] = sorted(schemes)
@@ -225,8 +225,7 @@ def check(ctx):
     prog = gsi.find(lambda q: method_call(q, 'set_address'))
     plain = [n for n in gsi.nodes if n.kind == 'if' and 'DEFAULT_ADDR' in norm(n.ast.test)]
     okb = len(prog) == 1 and fact_key('address is not None', True) in gsi.fact_keys_at(prog[0][0]) and len(plain) == 1 and \
-        sorted(norm(v) for v in (plain[0].ast.test.values if isinstance(plain[0].ast.test, ast.BoolOp) and isinstance(plain[0].ast.test.op, ast.Or) else [plain[0].ast.test])) == \
-        ['address == DEFAULT_ADDR', 'address is None']
+        canon_test(plain[0].ast.test) == fact_key('address is None or address == DEFAULT_ADDR')[0]
     ctx.inst('R4', si, 'addressless-uris-iff-default-address', okb,
              'URIs without an address field are reported exactly when no address or the default address was scanned (`address is None or address == DEFAULT_ADDR`), matching '
              'the `address is not None` test that programs the radio; a truthiness test mis-files address 0')
